@@ -20,6 +20,10 @@ MAPS = [
     {"x/a/b": "deep", "x/a": "mid", "k1": "ns.kk"},
     {"a": "a", "c": "(c)"},
     {"p": "q", "p0": "q0"},
+    # identity entries are not no-ops: an identity alias on a path is the maximal match and pins it against an alias on its owner prefix
+    {"a": "alpha", "a/b": "a/b"},
+    {"x": "y", "x/a": "x/a", "x/a/b": "q", "t": "t", "name": "name"},
+    {"a/b/c": "a/b/c", "a/b": "ab", "a": "a"},
 ]
 
 def table(m):
@@ -67,7 +71,7 @@ def run(ctx):
     targeted_keys = {enc(x) for x in targeted}
     uniq = list({enc(x): x for x in nodes}.items())
     tabs = [(m, table(m)) for m in MAPS]
-    cases = [(i, w, nd) for (w, nd) in uniq for i in (range(len(MAPS)) if (ctx.thorough or w in targeted_keys) else [hash(w) % len(MAPS), (hash(w) // 13) % len(MAPS), 8])]
+    cases = [(i, w, nd) for (w, nd) in uniq for i in (range(len(MAPS)) if (ctx.thorough or w in targeted_keys) else [common.stable_hash(w) % len(MAPS), (common.stable_hash(w) // 13) % len(MAPS), 8])]
     cases = list({(c[0], c[1]): c for c in cases}.values())
     common.correspond(ctx, "alias-rewrite", cases, real_fn=lambda c: real_alias(MAPS[c[0]], copy.deepcopy(c[2])),
                       model_reqs=lambda c: driver.req("alias", tabs[c[0]][1], c[1]),
@@ -123,7 +127,7 @@ def run(ctx):
     return common.finish(
         ctx,
         rule="random ASTs of depth 0..4 + parsed corpus + 11 binder shapes (nested lambdas re-binding the same variable with references to the outer one after the inner lambda, sibling lambdas, free "
-             "occurrences after a lambda) x 12 alias maps (keys: identifiers, paths, overlapping path/owner keys, built-in function "
+             "occurrences after a lambda) x 15 alias maps (incl. identity entries on paths next to aliases on their owner prefixes) (keys: identifiers, paths, overlapping path/owner keys, built-in function "
              "names, named-parameter names, lambda variables; targets: identifiers, paths, calls); input deep-copied and compared after the call; "
              "fresh-name bijection then inverse; non-trivial = the rewritten tree differs from the input",
         assumptions=["alias keys/targets are parsed by the real parser before being handed to the model (the parser is C05's)",
